@@ -428,7 +428,7 @@ func runC16(c *core.Ctx) {
 	// one object used for a very long time: far more than 2^16 (and 2^17) values pass
 	// through a queue and a stack whose lengths keep oscillating - positions, counters
 	// and ring indices of a re-implemented backing store wrap here and nowhere else
-	if c.Index%500 == 77 && (c.Tier != "thorough" || c.Index%10000 == 77) {
+	if c.Index%500 == 77 && c.Mode != "par" && (c.Tier != "thorough" || c.Index%10000 == 77) {
 		if !qsTyped(c, "int(long)", r.Range(700000, 1000000), 2500, func(i int) int { return i + 1 }) {
 			return
 		}
